@@ -204,7 +204,12 @@ def oracle(iv, c):
     for j in range(n):
         d = data[j]
         if c["kind"] == "width":
-            cov = (lo0 <= d < hiN) if c["right_open"] else (lo0 < d <= hiN)
+            # the covered range is what the configuration promises (value_range or [0, max(data)]), not what the
+            # reported boundaries happen to span: the maximum always lies in the trailing interval arange creates
+            vr_ = c["value_range"] or (None, None)
+            dmin_ = 0.0 if vr_[0] is None else vr_[0]
+            dmax_ = float(data.max()) if vr_[1] is None else vr_[1]
+            cov = (dmin_ <= d <= dmax_) if c["right_open"] else (dmin_ < d <= dmax_)
         elif c["kind"] == "number":
             vr = c["value_range"] or (data.min(), data.max())
             cov = (vr[0] <= d <= vr[1]) if c["include_max"] else (vr[0] <= d < vr[1])
